@@ -321,6 +321,9 @@ func genYArg(r *Rng, tier string, n int, emit func(Case)) {
 			if !multilineSafe(pv) && mode == 2 {
 				mode = 1
 			}
+			if !strings.Contains(pv, "\n") && strings.ContainsAny(pv, "\t\\\"") && r.Chance(40) {
+				mode = 3 // a single-line value written with \t \\ \" escapes: the RFC value is definite
+			}
 			if mode <= 1 && strings.Contains(pv, "'") {
 				mode = 2
 				if !multilineSafe(pv) {
